@@ -15,5 +15,6 @@ for d in $VERIF/seeded/benign/${BENIGN_GLOB:-*}/; do
     benign/R-strings*|benign/R2-strings*) props="C06 C08 C09 C10 C17";;
     *) props="$ALL";;
   esac
-  $VERIF/tools/seed_matrix2.sh quick "$s" $props
+  if [ -n "${PROP_FILTER:-}" ]; then f=""; for p in $props; do case " $PROP_FILTER " in *" $p "*) f="$f $p";; esac; done; props="$f"; fi
+  [ -n "$props" ] && $VERIF/tools/seed_matrix2.sh quick "$s" $props
 done
